@@ -177,6 +177,83 @@ package jlib
 //@   requires f != nil && ifaceable(v)
 //@   ensures [C15:filter-error-propagates] ret("Filter#0", 1) != nil ==> (r0 == nil && r1 == ret("Filter#0", 1))
 
+// --- C16: string functions count code points ----------------------------------------------------------------------------------
+// positionOfNthRune(s, n): the byte offset at which the n-th code point of s starts (runesBefore = n there), -1 when s
+// has no n-th code point. Substring, Pad and the separators of formatNumber slice strings only at such offsets.
+//@ func positionOfNthRune
+//@   props C16 C09
+//@   ensures [C16:nth-code-point] (0 <= n && n < runeCount(s)) ==> (0 <= result && result < len(s) && runeStart(s, result) && runesBefore(s, result) == n)
+//@   ensures [C16:beyond-the-end] (n < 0 || n >= runeCount(s)) ==> result == -1
+//@   assigns nothing
+//@   loop 0 invariant 0 <= $pos && $pos <= len(s) && runeStart(s, $pos) && i == runesBefore(s, $pos) && (n < 0 || i <= n)
+//@ func abs
+//@   props C16 C09
+//@   requires n > MinInt64
+//@   ensures result == (n < 0 ? -n : n)
+//@   assigns nothing
+
+// $substring(s, start, len): the code-point slice; a negative start counts from the end; nothing when the length is
+// not positive or the start is beyond the end. The cuts are made at positionOfNthRune offsets of exactly the
+// requested code-point indexes.
+//@ func Substring
+//@   props C16 C09
+//@   ensures [C16:nothing-to-return] ((length.isSet && length.Int <= 0) || start >= runeCount(s)) ==> len(result) == 0
+//@   ensures [C16:result-is-part-of-s] len(result) <= len(s)
+//@   assigns nothing
+//@   atcall[C16:start-is-a-code-point-index] positionOfNthRune#0 requires same(callee_s, s) && callee_n == (start < 0 ? start + runeCount(s) : start) && 0 < callee_n && callee_n < runeCount(s)
+//@   atcall[C16:length-is-a-code-point-count] positionOfNthRune#1 requires callee_n == length.Int && 0 < callee_n && callee_n < runeCount(callee_s)
+
+// $substringBefore / $substringAfter: split at the first occurrence (strings.Index), s unchanged when absent
+//@ func SubstringBefore
+//@   props C16 C09
+//@   ensures [C16:before-first-occurrence] ret("strings.Index#0", 0) >= 0 ==> same(result, s[:ret("strings.Index#0", 0)])
+//@   ensures [C16:absent-separator] ret("strings.Index#0", 0) < 0 ==> same(result, s)
+//@   atcall[C16:first-occurrence-of-separator] strings.Index#0 requires same(callee_arg0, s) && same(callee_arg1, substr)
+//@ func SubstringAfter
+//@   props C16 C09
+//@   ensures [C16:after-first-occurrence] ret("strings.Index#0", 0) >= 0 ==> same(result, s[ret("strings.Index#0", 0) + len(substr):])
+//@   ensures [C16:absent-separator] ret("strings.Index#0", 0) < 0 ==> same(result, s)
+//@   atcall[C16:first-occurrence-of-separator] strings.Index#0 requires same(callee_arg0, s) && same(callee_arg1, substr)
+
+// $pad: nothing to do when the string already has |width| code points; the padding is cut at a code-point
+// boundary; it goes to the left exactly when the width is negative.
+//@ func Pad
+//@   props C16 C09
+//@   requires width > MinInt64
+//@   ensures [C16:long-enough-unchanged] (width < 0 ? -width : width) <= runeCount(s) ==> same(result, s)
+//@   atif[C16:negative-width-pads-left] "width < 0" iff width < 0
+
+// $join: the members joined by strings.Join with the separator (a lone string is itself; anything else is an error)
+//@ func Join
+//@   props C16 C09
+//@   opaque-arith
+//@   ensures [C16:joined-by-the-library] (r1 == nil && arrKind(kind(res(values)))) ==> same(r0, ret("strings.Join#0", 0))
+//@   atcall[C16:all-members-with-the-separator] strings.Join#0 requires len(callee_arg0) == rvlen(res(values)) && same(callee_arg1, separator.String)
+//@   loop 0 invariant 0 <= i && i <= rvlen(values) && values == res(old(values)) && arrKind(kind(values)) && len(vs) == i
+
+// $replace: a string pattern goes to replaceString, a regex to replaceMatchFunc, with the source and the limit (-1 =
+// all) - on every path, also for an empty source; a negative limit is an error.
+//@ func Replace
+//@   props C16 C17 C09
+//@   ensures [C16:negative-limit-is-error] limit.Int < 0 ==> r1 != nil
+//@   ensures [C16:string-pattern] (limit.Int >= 0 && typeis(ret("StringCallable.toInterface#0", 0), "string")) ==> (same(r0, ret("replaceString#0", 0)) && r1 == ret("replaceString#0", 1))
+//@   atcall[C16:whole-source-and-limit] replaceString#0 requires same(callee_src, src) && callee_limit == (limit.isSet ? limit.Int : -1)
+//@   atcall[C17:whole-source-and-limit] replaceMatchFunc#0 requires same(callee_src, src) && callee_limit == (limit.isSet ? limit.Int : -1)
+//@ func replaceString
+//@   props C16 C09
+//@   ensures [C16:empty-pattern-is-error] len(pattern) == 0 ==> r1 != nil
+//@   ensures [C16:library-replace] r1 == nil ==> same(r0, ret("strings.Replace#0", 0))
+//@   atcall[C16:library-replace-arguments] strings.Replace#0 requires same(callee_arg0, src) && same(callee_arg1, pattern) && callee_arg3 == limit
+//@ func (StringCallable).toInterface
+//@   props C16 C17 C09
+//@   assigns nothing
+//@   trusted
+//@ func replaceMatchFunc
+//@   props C17 C09
+//@   requires fn != nil
+//@   assigns heap
+//@   trusted
+
 // --- C13: $sort ------------------------------------------------------------------------------------------
 // $sort(a) on an all-number / all-string array: the members are collected in order (every one of them a float64 /
 // a string, which is what the comparison closures assert), then ordered by sort.SliceStable (trusted: stable) with
